@@ -11,6 +11,15 @@ Proved here, about the model `EncTotal.lean` (tied to the code by the differenti
 * `quantiser_range_*`, `packing_cannot_overflow`, `packed_formats_fit` — every scalar quantiser
   of src/color/formats.rs stays within its bit field for EVERY input including NaN and the
   infinities, so no shift of the packing pushes a bit out or into a neighbouring field;
+* `quantiser_range_shared_exp`, `shared_exp_zero_sign_irrelevant`, `shared_exp_channel_bounds`,
+  `shared_exp_scaling_exact` —
+  R9G9B9E5 (`rgb9995f::from_f32`) at the bit level, on binary32 bit patterns with a software
+  binary32 (no assumption on the rounding): for EVERY triple of patterns no `debug_assert!`
+  fails, the mantissas are at most 511, the exponent at most 31, the word is the 9+9+9+5 packing;
+* `quantiser_range_unorm_bits`, `packed_formats_fit_bits` — the binary32 quantisers
+  `n1, n2, n4, n5, n6, n10::from_f32`, `s8::from_uf32` and the packed formats built from them, again
+  on bit patterns with the software binary32: the rounding hypotheses of `quantiser_range_unorm`,
+  `quantiser_range_snorm` (8 bit) and `packed_formats_fit` are discharged for binary32;
 * `refine_loops_bounded` — the only data-dependent loop of the block encoders runs at most
   `max_iter` times, and `max_iter ≤ 10` at every quality;
 * `empty_image_ok` — empty images give `Ok` and not a single byte, in every family, even with
@@ -23,6 +32,9 @@ property's "never panics" clause.
 -/
 import DdsModel.Proofs.EncTotal
 import DdsModel.Proofs.EncQuant
+import DdsModel.Proofs.SharedExp
+import DdsModel.Proofs.SharedExpTie
+import DdsModel.Proofs.QuantBits
 namespace Dds.C15
 open Dds Dds.EncTotal
 
@@ -259,14 +271,87 @@ theorem quantiser_range_small_float (f16 : Nat) :
     fpE5 6 f16 < 2 ^ 11 ∧ fpE5 5 f16 < 2 ^ 10 :=
   ⟨fpE5_lt 6 (by omega) f16, fpE5_lt 5 (by omega) f16⟩
 
-/-- **R9G9B9E5, partial.** Proved: a channel whose scaled value `c · 2^(24−exp)` is at most 512
-gets a mantissa of at most 512 (first pass), at most 256 gives at most 256 (second pass, after
-`exp += 1`), and with the top exponent 31 the clamp to 65408 gives at most 511, so the second
-pass — and with it `exp = 32` — does not happen there.
-Missing for the full claim (`r_mant, g_mant, b_mant ≤ 511`, `exp ≤ 31`): that the exponent taken
-from the bits of the largest channel makes every scaled value `< 512`; this step is bit-level
-float code and is exercised by the `debug_assert!`s in the checked profile, not proved. -/
-theorem quantiser_range_shared_exp_partial (R : Rounding) (exp : Nat) (c : Rat)
+/-- **R9G9B9E5, every input** (`rgb9995f::from_f32` with `util::clamp_0_max`, `util::two_powi`;
+model `SharedExp.fields` / `SharedExp.fromF32` on binary32 bit patterns, every `f32` operator one
+correctly rounded operation of `ConvF32.lean`).  For every triple of bit patterns — NaN of any
+payload, the infinities, negative values, both zeros, subnormals, huge values; `r g b` are not
+even required to be below `2^32` — and every choice `tie` of the zero that `f32::max` returns on a
+`-0.0`/`+0.0` tie at each of its five call sites:
+* the model answers `some`: neither `debug_assert!(exp <= 31)`, nor the three
+  `debug_assert!(x_mant <= 511)`, nor the assertion inside `two_powi`, nor an `i8` overflow in
+  `-(exp as i8 - 24)` can fire (so the checked and the release profile compute the same word);
+* `r_mant, g_mant, b_mant ≤ 511` and `exp ≤ 31`;
+* the returned `u32` is exactly the field packing `pack` of 9 + 9 + 9 + 5 bits: no `<<` drops or
+  overlaps a bit. -/
+theorem quantiser_range_shared_exp (tie : Nat → Bool) (r g b : Nat) :
+    ∃ rm gm bm e, SharedExp.fields tie r g b = some (rm, gm, bm, e) ∧
+      rm ≤ 511 ∧ gm ≤ 511 ∧ bm ≤ 511 ∧ e ≤ 31 ∧
+      SharedExp.fromF32 tie r g b = some (pack [(rm, 9), (gm, 9), (bm, 9), (e, 5)]) ∧
+      pack [(rm, 9), (gm, 9), (bm, 9), (e, 5)] < 2 ^ 32 :=
+  SharedExp.fromF32_range tie r g b
+
+/-- **R9G9B9E5: the sign of zero never reaches the result.**  Rust documents that `f32::max`
+may return either operand when `-0.0` meets `+0.0`; the model leaves that choice open at each of
+the five `max` calls (`tie`).  Whatever is chosen, the fields and the encoded word are the same —
+so the one choice the differential driver runs speaks for all. -/
+theorem shared_exp_zero_sign_irrelevant (tie tie' : Nat → Bool) (r g b : Nat) :
+    SharedExp.fields tie r g b = SharedExp.fields tie' r g b ∧
+    SharedExp.fromF32 tie r g b = SharedExp.fromF32 tie' r g b :=
+  ⟨SharedExp.fields_tie_irrelevant tie tie' r g b, SharedExp.fromF32_tie_irrelevant tie tie' r g b⟩
+
+/-- **R9G9B9E5, the mechanism, per channel.**  `c` is a clamped non-zero channel (a pattern in
+`[1, 0x477F8000]`, i.e. a positive value up to 65408.0, subnormals included) whose exponent field
+is at most `exp + 111` — true of every channel when `exp = max(raw_exp − 111, 0)` is computed from
+the exponent field `raw_exp` of the largest channel.  Then
+* first pass: `(c * 2^(24−exp) + 0.5) as u32 ≤ 512` (the scaled value is below 512, the product is
+  rounded to at most 512.0, the sum to at most 512.5);
+* second pass, after `exp += 1`: at most 256 — a 512 never survives;
+* `exp = 31`: at most 511 already in the first pass (65408 · 2^-7 = 511, the sum is at most 511.5),
+  so the second pass is not entered there and `exp` never becomes 32.
+A zero channel (either sign) has mantissa 0 at every scale. -/
+theorem shared_exp_channel_bounds (c exp : Nat) (hc1 : 1 ≤ c) (hc2 : c ≤ SharedExp.c65408)
+    (he : exp ≤ 31) (hX : CF32.expField c ≤ exp + 111) :
+    SharedExp.mantOf c (CF32.twoPowi (24 - exp)) ≤ 512 ∧
+    SharedExp.mantOf c (CF32.twoPowi (24 - ((exp + 1 : Nat) : Int))) ≤ 256 ∧
+    (exp = 31 → SharedExp.mantOf c (CF32.twoPowi (24 - exp)) ≤ 511) ∧
+    (∀ n : Int, -126 ≤ n → n ≤ 127 → SharedExp.mantOf 0 (CF32.twoPowi n) = 0 ∧
+      SharedExp.mantOf CF32.signBit (CF32.twoPowi n) = 0) := by
+  refine ⟨SharedExp.mantOf_le_first c exp hc1 hc2 he hX,
+    SharedExp.mantOf_le_second c (exp + 1) hc1 hc2 (by omega) (by omega), ?_, ?_⟩
+  · intro h31
+    subst h31
+    exact SharedExp.mantOf_le_top c hc1 hc2
+  · intro n h1 h2
+    exact ⟨SharedExp.mantOf_zero 0 n (Or.inl rfl) h1 h2,
+      SharedExp.mantOf_zero CF32.signBit n (Or.inr rfl) h1 h2⟩
+
+/-- **What is used of binary32 multiplication: scaling by a power of two.**  `c * two_powi(n)`
+for a positive finite `c` is ONE rounding of the exact product (`roundPack`, round to nearest
+even with gradual underflow); when `c` is normal and the result is in the normal range it is
+EXACT — the exponent field moves by `n`, the fraction bits are untouched — and in every case
+(subnormal `c`, underflow of the result) it is at most the pattern of the power of two
+`2^(K+1)` above the exact product.  Nothing is assumed: these are theorems about the software
+binary32 that the differential run ties to the hardware. -/
+theorem shared_exp_scaling_exact (c : Nat) (n : Int) (hc : c < CF32.posInf) (h1 : -126 ≤ n)
+    (h2 : n ≤ 127) :
+    CF32.fmul c (CF32.twoPowi n) =
+      CF32.roundPack false (CF32.mant c * 2 ^ 23) (CF32.expo c + (n - 23)) ∧
+    (1 ≤ CF32.expField c → 1 ≤ (CF32.expField c : Int) + n → (CF32.expField c : Int) + n ≤ 254 →
+      CF32.fmul c (CF32.twoPowi n) =
+        ((CF32.expField c : Int) + n).toNat * 2 ^ 23 + CF32.fracField c) ∧
+    (∀ K : Int, CF32.mant c ≠ 0 → (CF32.expField c : Int) + n - 127 ≤ K → -127 ≤ K →
+      CF32.fmul c (CF32.twoPowi n) ≤ (K + 128).toNat * 2 ^ 23) :=
+  ⟨SharedExp.fmul_twoPowi c n hc h1 h2,
+   fun hX hr1 hr2 => SharedExp.fmul_twoPowi_exact c n hc h1 h2 hX hr1 hr2,
+   fun K hc0 hK hK2 => SharedExp.fmul_twoPowi_le c n K hc hc0 h1 h2 hK hK2⟩
+
+/-- **R9G9B9E5 for any monotone rounding** (the earlier, abstract form; kept because it does not
+depend on binary32: it also covers an evaluation in higher precision).  A channel whose scaled
+value `c · 2^(24−exp)` is at most 512 gets a mantissa of at most 512, at most 256 gives at most
+256, and with `exp = 31` the clamp to 65408 gives at most 511.  That the exponent read from the
+bits of the largest channel makes every scaled value `< 512` is the bit-level step proved in
+`quantiser_range_shared_exp` / `shared_exp_channel_bounds`. -/
+theorem quantiser_range_shared_exp_any_rounding (R : Rounding) (exp : Nat) (c : Rat)
     (h512 : R.fixes (512 + 1/2)) (h256 : R.fixes (256 + 1/2)) (h511 : R.fixes (511 + 1/2)) :
     (c * (2 : Rat) ^ ((24 : Int) - exp) ≤ 512 → mant9995 R exp c ≤ 512) ∧
     (c * (2 : Rat) ^ ((24 : Int) - exp) ≤ 256 → mant9995 R exp c ≤ 256) ∧
@@ -279,6 +364,52 @@ theorem quantiser_range_shared_exp_partial (R : Rounding) (exp : Nat) (c : Rat)
   refine mant9995_le R 31 c 511 511 ?_ (by grind) h511
   rw [e]
   grind
+
+/-- **The binary32 UNORM / SNORM8 quantisers, every bit pattern, no rounding hypothesis.**
+`n1::from_f32` (`x >= 0.5`), `n2, n4, n5, n6, n10::from_f32` (`(x.min(1.0) * MAX + 0.5) as u8|u16`
+with the literals 3.0, 15.0, 31.0, 63.0, 1023.0) and `s8::from_uf32` (254.0, then `from_norm`) on
+binary32 bit patterns, every operator one correctly rounded operation of `ConvF32.lean`: for
+EVERY pattern `x` (NaN of any payload and sign, ±∞, both zeros, negative, subnormal, huge) the
+result is at most `MAX`; in `s8::from_norm` the `debug_assert!(x <= 254)` holds and `x + 1` does
+not overflow `u8`.  This is `quantiser_range_unorm` / `quantiser_range_snorm` (8 bit) with the
+hypotheses `R.fixes MAX`, `R.fixes (MAX + ½)` discharged for binary32.  (`s16::from_uf32`
+computes in `f64`: it stays with `quantiser_range_snorm`.) -/
+theorem quantiser_range_unorm_bits (x : Nat) (hx : x < 2 ^ 32) :
+    QuantBits.n1 x ≤ 1 ∧ QuantBits.n2 x ≤ 3 ∧ QuantBits.n4 x ≤ 15 ∧ QuantBits.n5 x ≤ 31 ∧
+    QuantBits.n6 x ≤ 63 ∧ QuantBits.n10 x ≤ 1023 ∧ ∃ v, QuantBits.s8 x = some v ∧ v < 2 ^ 8 :=
+  ⟨QuantBits.n1_le x, QuantBits.n2_le x hx, QuantBits.n4_le x hx, QuantBits.n5_le x hx,
+   QuantBits.n6_le x hx, QuantBits.n10_le x hx, QuantBits.s8_some x hx⟩
+
+/-- **The packed formats made of these quantisers, every RGBA `f32` pixel** (the `universal!`
+closures of src/encode/uncompressed.rs with their `u16` / `u32` shifts, which silently drop bits
+shifted past the type): B5G6R5, B5G5R5A1, B4G4R4A4, A4B4G4R4, R10G10B10A2 and R8G8B8A8_SNORM
+encode every pixel to exactly the field packing `pack` — no shift drops a bit, no field reaches
+into its neighbour — and the word fits 16 / 32 bits; for R8G8B8A8_SNORM no channel panics.
+`packed_formats_fit` for these formats without any hypothesis on the rounding. -/
+theorem packed_formats_fit_bits (r g b a : Nat) (hr : r < 2 ^ 32) (hg : g < 2 ^ 32)
+    (hb : b < 2 ^ 32) (ha : a < 2 ^ 32) :
+    (QuantBits.encode "B5G6R5_UNORM" r g b a =
+        some (pack [(QuantBits.n5 b, 5), (QuantBits.n6 g, 6), (QuantBits.n5 r, 5)]) ∧
+      pack [(QuantBits.n5 b, 5), (QuantBits.n6 g, 6), (QuantBits.n5 r, 5)] < 2 ^ 16) ∧
+    (QuantBits.encode "B5G5R5A1_UNORM" r g b a =
+        some (pack [(QuantBits.n5 b, 5), (QuantBits.n5 g, 5), (QuantBits.n5 r, 5), (QuantBits.n1 a, 1)]) ∧
+      pack [(QuantBits.n5 b, 5), (QuantBits.n5 g, 5), (QuantBits.n5 r, 5), (QuantBits.n1 a, 1)] < 2 ^ 16) ∧
+    (QuantBits.encode "B4G4R4A4_UNORM" r g b a =
+        some (pack [(QuantBits.n4 b, 4), (QuantBits.n4 g, 4), (QuantBits.n4 r, 4), (QuantBits.n4 a, 4)]) ∧
+      pack [(QuantBits.n4 b, 4), (QuantBits.n4 g, 4), (QuantBits.n4 r, 4), (QuantBits.n4 a, 4)] < 2 ^ 16 ∧
+      QuantBits.encode "A4B4G4R4_UNORM" r g b a =
+        some (pack [(QuantBits.n4 a, 4), (QuantBits.n4 b, 4), (QuantBits.n4 g, 4), (QuantBits.n4 r, 4)]) ∧
+      pack [(QuantBits.n4 a, 4), (QuantBits.n4 b, 4), (QuantBits.n4 g, 4), (QuantBits.n4 r, 4)] < 2 ^ 16) ∧
+    (QuantBits.encode "R10G10B10A2_UNORM" r g b a =
+        some (pack [(QuantBits.n10 r, 10), (QuantBits.n10 g, 10), (QuantBits.n10 b, 10), (QuantBits.n2 a, 2)]) ∧
+      pack [(QuantBits.n10 r, 10), (QuantBits.n10 g, 10), (QuantBits.n10 b, 10), (QuantBits.n2 a, 2)] < 2 ^ 32) ∧
+    (∃ r' g' b' a', QuantBits.s8 r = some r' ∧ QuantBits.s8 g = some g' ∧ QuantBits.s8 b = some b' ∧
+      QuantBits.s8 a = some a' ∧
+      QuantBits.encode "R8G8B8A8_SNORM" r g b a = some (pack [(r', 8), (g', 8), (b', 8), (a', 8)]) ∧
+      pack [(r', 8), (g', 8), (b', 8), (a', 8)] < 2 ^ 32) :=
+  ⟨QuantBits.encode_b5g6r5 r g b a hr hg hb, QuantBits.encode_b5g5r5a1 r g b a hr hg hb,
+   QuantBits.encode_b4g4r4a4 r g b a hr hg hb ha, QuantBits.encode_r10g10b10a2 r g b a hr hg hb ha,
+   QuantBits.encode_rgba8_snorm r g b a hr hg hb ha⟩
 
 /-- **Packing.** Fields that fit their widths pack into the sum of the widths, and the lowest
 field and the remaining fields are read back unchanged: no shift overflows into a neighbour. -/
@@ -386,6 +517,36 @@ example : qUnormMin Rounding.exact 31 8 .nan = 31 ∧ qUnormSat Rounding.exact 2
   decide +kernel
 -- ∞ − ∞ in a chroma row is NaN and is cast to 0
 example : qYuv10 Rounding.exact (uRow (1025/2)) .pinf .pinf .pinf = 0 := by decide +kernel
+-- R9G9B9E5 on bit patterns: 1.0/0.5/0.25 share exponent 16; 1023.0 takes the second pass (the first
+-- gives 512 at exponent 25, the result is 256 at exponent 26); 65408.0 with NaN and -inf is
+-- (511, 0, 0) at the top exponent 31; +inf, -0.0 and a subnormal: the same; all-NaN is the word 0
+example : SharedExp.fields (fun _ => false) 0x3F800000 0x3F000000 0x3E800000 = some (256, 128, 64, 16) ∧
+    SharedExp.fields (fun _ => true) 0x447FC000 0 0x3F800000 = some (256, 0, 0, 26) ∧
+    SharedExp.mantOf 0x447FC000 (CF32.twoPowi (24 - 25)) = 512 ∧
+    SharedExp.fields (fun _ => false) 0x477F8000 0x7FC00000 0xFF800000 = some (511, 0, 0, 31) ∧
+    SharedExp.fields (fun _ => true) 0x7F800000 0x80000000 0x00000001 = some (511, 0, 0, 31) ∧
+    SharedExp.fromF32 (fun _ => false) 0x7FC00000 0xFFC00001 0x7F800001 = some 0 ∧
+    SharedExp.fromF32 (fun _ => false) 0x3F800000 0x3F000000 0x3E800000 = some 0x81010100 := by
+  decide +kernel
+-- the tie is real: `(-0.0).max(0.0)` is `-0.0` or `+0.0` depending on the choice, the word is 0 both times
+example : SharedExp.clamp0Max true 0x80000000 = 0x80000000 ∧ SharedExp.clamp0Max false 0x80000000 = 0 ∧
+    SharedExp.fromF32 (fun _ => true) 0x80000000 0 0x80000000 = some 0 ∧
+    SharedExp.fromF32 (fun _ => false) 0x80000000 0 0x80000000 = some 0 := by decide +kernel
+-- the hypotheses of `shared_exp_channel_bounds` and of the exactness clause are satisfiable:
+-- c = 1023.0 (exponent field 136 = 25 + 111), and 1023.0 * 2^-1 = 511.5 exactly
+example : 1 ≤ 0x447FC000 ∧ 0x447FC000 ≤ SharedExp.c65408 ∧ 25 ≤ 31 ∧
+    CF32.expField 0x447FC000 ≤ 25 + 111 ∧ 0x447FC000 < CF32.posInf ∧
+    CF32.fmul 0x447FC000 (CF32.twoPowi (-1)) = 0x43FFC000 := by decide +kernel
+-- the bit-level UNORM quantisers: the constants are the `f32` literals; NaN (any sign) and +inf go to
+-- MAX, -inf and -0.0 to 0, 0.5 to round(15.5 + 0.5) = 16, a value one ulp below 1 to MAX; SNORM8 of NaN
+-- is +127; a pixel of (NaN, -inf, +inf, 0.5) in B5G5R5A1 is b=31, g=0, r=31, a=1
+example : CF32.ofNat 3 = QuantBits.k3 ∧ CF32.ofNat 15 = QuantBits.k15 ∧ CF32.ofNat 31 = QuantBits.k31 ∧
+    CF32.ofNat 63 = QuantBits.k63 ∧ CF32.ofNat 1023 = QuantBits.k1023 ∧ CF32.ofNat 254 = QuantBits.k254 ∧
+    QuantBits.n5 0x7FC00000 = 31 ∧ QuantBits.n5 0xFFC00001 = 31 ∧ QuantBits.n5 0x7F800000 = 31 ∧
+    QuantBits.n5 0xFF800000 = 0 ∧ QuantBits.n5 0x80000000 = 0 ∧ QuantBits.n5 0x3F000000 = 16 ∧
+    QuantBits.n10 0x3F7FFFFF = 1023 ∧ QuantBits.s8 0x7FC00000 = some 127 ∧ QuantBits.s8 0 = some 129 ∧
+    QuantBits.encode "B5G5R5A1_UNORM" 0x7FC00000 0xFF800000 0x7F800000 0x3F000000 = some 0xFC1F := by
+  decide +kernel
 -- the loop guard can cut the loop short, and `max_iter` cuts it when the guard never does
 example : refineIters (fun i => i < 2) 10 10 0 = 2 ∧ refineIters (fun _ => true) 4 100 0 = 4 := by
   decide
